@@ -8,6 +8,7 @@ The lexical part (trivia as stuttering of the scanner's transition function) is 
 the JSightLex specification by C14/C05-lex (see c14.py)."""
 import json
 import random
+import re
 
 import apidoc
 import rel
@@ -45,6 +46,10 @@ def lex_view(data, o):
         txt = data[b:e + 1] if e >= b else b""
         if t == 5:
             txt = txt.strip(b" \t\r\n")
+        if t in (3, 8):
+            # the schema library counts comment lines that follow a body as part of it (F-29): compare the
+            # body without them
+            txt = re.split(rb"[\r\n][ \t]*#", txt, 1)[0].rstrip(b" \t\r\n")
         res.append((t, txt))
     return res
 
@@ -87,7 +92,19 @@ def lexical_pairs(chk, tier):
             elif a["err_idx"] < 0 and lex_view(base, a) != lex_view(var, b):
                 bad = "lexeme types/texts differ: %s vs %s" % (lex_view(base, a)[:6], lex_view(var, b)[:6])
             if bad:
-                sig = {"rewrite": "lexical-" + kind, "base": "lex", "variant": "lex", "msg": ""}
+                sig = {"rewrite": "lexical-" + kind, "base": "lex", "variant": "lex", "msg": "", "detail": ""}
+                # what was inserted, and does it directly follow a schema / enum body?
+                i = 0
+                while i < min(len(base), len(var)) and base[i] == var[i]:
+                    i += 1
+                j = 0
+                while j < min(len(base), len(var)) - i and base[len(base) - 1 - j] == var[len(var) - 1 - j]:
+                    j += 1
+                ins = var[i:len(var) - j].strip(b" \t\r\n")
+                after_body = any(t in (3, 8) and e < i and not base[e + 1:i].strip(b" \t\r\n") for t, b0, e in a.get("lex") or [])
+                if after_body and (ins == b"#" or (ins.startswith(b"##") and not ins.startswith(b"###"))):
+                    sig["rewrite"] = "all"          # same finding as at document level (F-29)
+                    sig["detail"] = "only-empty-or-double-hash-comment-lines"
                 chk.violation("rewriting (%s) of %r into %r: %s" % (kind, base, var, bad),
                               {"kind": "lexpair", "rewrite": kind, "base": base.decode("latin1"), "variant": var.decode("latin1"),
                                "machine_says_same": same, "signature": sig}, sig)
@@ -111,6 +128,16 @@ def main(tier):
             cases.append(rel.case(cid, text))
             meta[cid] = ("b%d" % n, nm, m, base, text)
     obs = harness("run", cases)
+    # control runs for mismatching comment insertions: the same text with every '#'-only and '##...' comment
+    # line replaced by '# c'.  If the control agrees with the canonical run, the difference is due to those
+    # comment spellings alone (finding F-29: a comment directly after a body is read by the schema library).
+    ctl = {}
+    for cid, (bid, nm, m, base, text) in meta.items():
+        if rel.result_key(obs[bid]) != rel.result_key(obs[cid]) and nm in ("comments", "all"):
+            ctext = re.sub(r"(?m)^([ \t]*)(#|##[^#\r\n]*)[ \t]*(\r?)$", r"\1# c\3", text)
+            if ctext != text:
+                ctl[cid] = rel.case("c" + cid, ctext)
+    cobs = harness("run", list(ctl.values())) if ctl else {}
     for cid, (bid, nm, m, base, text) in meta.items():
         a, b = obs[bid], obs[cid]
         chk.evaluations += 1
@@ -119,7 +146,9 @@ def main(tier):
         if rel.result_key(a) != rel.result_key(b):
             d = rel.json_diff(a["json"], b["json"]) if a["outcome"] == b["outcome"] == "ok" else None
             sig = {"rewrite": nm, "base": a["outcome"], "variant": b["outcome"],
-                   "msg": (b.get("err") or {}).get("msg", "") + b.get("panic", "")}
+                   "msg": (b.get("err") or {}).get("msg", "") + b.get("panic", ""), "detail": ""}
+            if cid in ctl and rel.result_key(cobs["c" + cid]) == rel.result_key(a):
+                sig["detail"] = "only-empty-or-double-hash-comment-lines"
             chk.violation("rewriting '%s' changed the result: canonical %s, rewritten %s %s | rewritten document:\n%s" % (
                 nm, rel.describe(a), rel.describe(b), d or "", text[:1200]),
                 {"kind": "pair", "rewrite": nm, "doc": m["doc"], "base": base, "variant": text,
